@@ -207,12 +207,22 @@ PANIC_LASTSEG = {"copy_from_slice", "clone_from_slice", "split_at", "split_at_mu
 CONST_ARG_OK = {"chunks", "chunks_mut", "chunks_exact", "chunks_exact_mut", "rchunks", "rchunks_mut", "rchunks_exact", "rchunks_exact_mut", "windows", "step_by"}
 
 
+# allocation requests: a size the target controls panics on capacity overflow and aborts on allocation failure
+ALLOC_SIZE_ARG = {"std::vec::Vec::with_capacity": 0, "std::vec::from_elem": 1, "std::vec::Vec::resize": 1, "std::vec::Vec::reserve": 1,
+                  "std::vec::Vec::reserve_exact": 1, "std::string::String::with_capacity": 0, "std::string::String::reserve": 1,
+                  "std::vec::Vec::resize_with": 1, "std::collections::VecDeque::with_capacity": 0,
+                  "std::collections::HashMap::with_capacity": 0, "std::str::<impl str>::repeat": 1, "std::slice::<impl [T]>::repeat": 1}
+ALLOC_LIMIT = 1 << 32
+
+
 def sink_kind_of_call(cv):
     n = cv.target or cv.short
     if n is None:
         return None
     if n in PANIC_CALL_EXACT:
         return lastseg(n)
+    if n in ALLOC_SIZE_ARG:
+        return "alloc_" + lastseg(n)
     ls = lastseg(n)
     if ls in ("index", "index_mut") and ("ops::Index" in n):
         return ls
@@ -516,9 +526,15 @@ def range_discharge(sink, taint, op_types):
             if B is not None and le_sym(k, B):
                 return True
         return False
+    if kind.startswith("call:alloc_"):
+        name = next((n for n in ALLOC_SIZE_ARG if kind == "call:alloc_" + lastseg(n) and len(sink.ops) > ALLOC_SIZE_ARG[n]), None)
+        if name is None:
+            return False
+        m = maxval(sink.ops[ALLOC_SIZE_ARG[name]], bounds)
+        return m is not None and m <= ALLOC_LIMIT
     if kind in ("Overflow:Shl", "Overflow:Shr"):
         b = maxval(sink.ops[1], bounds)
-        bits = {"u8": 8, "i8": 8, "u16": 16, "i16": 16, "u32": 32, "i32": 32}.get(op_types[0] or "usize", 64)
+        bits = {"u8": 8, "i8": 8, "u16": 16, "i16": 16, "u32": 32, "i32": 32, "u128": 128, "i128": 128}.get(op_types[0] or "usize", 64)
         return b is not None and b < bits
     if kind == "BoundsCheck":
         ln, idx = sink.ops
@@ -526,6 +542,10 @@ def range_discharge(sink, taint, op_types):
         i = maxval(idx, bounds)
         if is_const(lnc) and i is not None:
             return i < lnc[1]
+        inner = lnc[1] if lnc[0] == "len" else (lnc[2][0] if lnc[0] == "call" and lastseg(lnc[1]) == "len" and lnc[2] else None)
+        if inner is not None and i is not None:
+            n = _static_len(inner)
+            return n is not None and i < n
         return False
     if kind in ("call:index", "call:index_mut"):
         base, ix = strip(sink.ops[0]), strip(sink.ops[1])
@@ -653,6 +673,20 @@ def _static_len(e):
                     return strip(s[2][1])[1]
     if e[0] == "array":
         return len(e[1])
+    if e[0] == "field" and e[2] in ("0", "1"):
+        # item component of zip / enumerate over chunks_exact(_, n)
+        base = strip(e[1])
+        if base[0] == "call" and lastseg(base[1]) == "next" and base[2]:
+            it = strip(base[2][0])
+            while it[0] == "call" and lastseg(it[1]) in ("into_iter", "by_ref") and it[2]:
+                it = strip(it[2][0])
+            src = None
+            if it[0] == "call" and lastseg(it[1]) == "zip" and len(it[2]) == 2:
+                src = strip(it[2][int(e[2])])
+            elif it[0] == "call" and lastseg(it[1]) == "enumerate" and e[2] == "1" and it[2]:
+                src = strip(it[2][0])
+            if src is not None and src[0] == "call" and lastseg(src[1]) in ("chunks_exact", "chunks_exact_mut") and is_const(strip(src[2][1])):
+                return strip(src[2][1])[1]
     return None
 
 
